@@ -164,6 +164,15 @@ class PlaceSession:
                              cluster_barriers=bool(o["cluster"]), scatter_free_agents=bool(o["scatter"]), **kw)
         self.stat = self.w.stat_wire()
 
+    def set_flags(self, o):
+        """switch the four options on the live state object through its public setters"""
+        self.state.no_overlap_at_reset = bool(o["no"])
+        self.state.randomize_placement_order = bool(o["rand"])
+        if self.kind != "position":
+            self.state.cluster_barriers = bool(o["cluster"])
+            self.state.scatter_free_agents = bool(o["scatter"])
+        self.o = o
+
     def reset(self, tape):
         """returns (pre_dyn, outcome_wire, recorded generate_maze calls)"""
         pre = self.w.dyn_wire()
@@ -349,6 +358,8 @@ class PlaceProp(core.Prop):
     # ---- building cases ---------------------------------------------------------------------
     def _place_case(self, desc, sess, pre, out, tape, which):
         kind, o = desc["kind"], desc["opts"]
+        if desc.get("opt_seq"):
+            o = desc["opt_seq"][which]
         ow = opts_wire(kind, o)
         line = wire.enc(["gplace", sess.stat, pre, ow, list(tape), out])
         d = dict(desc)
@@ -364,9 +375,11 @@ class PlaceProp(core.Prop):
             tags.append("dirty-prior")
         free = [i for i, a in enumerate(ags)
                 if a.get("init_pos") is None and not (kind != "position" and i == o["target"])]
+        if desc.get("opt_seq") and which > 0 and desc["opt_seq"][which] != desc["opt_seq"][which - 1]:
+            tags.append("options-switched-on-live-state")
         if not py_wf(desc["world"], kind, o):
             tags.append("ood:K1")
-        if out[0] == "ok" and self._k1_shape(desc, out[1]):
+        if out[0] == "ok" and self._k1_shape(dict(desc, opts=o), out[1]):
             tags.append("k1-shape")
         nontrivial = bool(free) or out[0] != "ok"
         return core.Case(d, line, wire.enc(out), key=json.dumps([sess.stat, pre, ow, list(tape)]),
@@ -397,6 +410,8 @@ class PlaceProp(core.Prop):
         for k, tape in enumerate(desc["tapes"]):
             if upto is not None and k > upto:
                 break
+            if desc.get("opt_seq"):
+                sess.set_flags(desc["opt_seq"][k])          # options switched between resets of one object
             pre, out, mazes = sess.reset(tape)
             yield k, sess, pre, out, tape, mazes
 
@@ -435,7 +450,19 @@ class PlaceProp(core.Prop):
         while done < target:
             desc = gen_case(rng, combo=combo % 16)
             combo += 1
-            if not py_wf(desc["world"], desc["kind"], desc["opts"]) and rng.random() < 0.8:
+            if rng.random() < 0.4:
+                # the options are switched through the setters between resets of the same state object
+                if len(desc["tapes"]) < 2:
+                    desc["tapes"] = desc["tapes"] + [[rng.randrange(1000) for _ in range(len(desc["tapes"][0]))]]
+                seq = [dict(desc["opts"])]
+                for _ in desc["tapes"][1:]:
+                    o2 = dict(seq[-1])
+                    for f in rng.sample(["no", "rand", "cluster", "scatter"], rng.randint(1, 2)):
+                        o2[f] = not o2[f]
+                    seq.append(o2)
+                desc["opt_seq"] = seq
+            if any(not py_wf(desc["world"], desc["kind"], o) for o in desc.get("opt_seq", [desc["opts"]])) \
+                    and rng.random() < 0.8:
                 continue                       # keep the out-of-domain share (finding C13-K1) small
             for k, sess, pre, out, tape, mazes in self._run_desc(desc):
                 yield self._place_case(desc, sess, pre, out, tape, k)
